@@ -1754,3 +1754,57 @@ def first_of(t):
             x = x[2][0]
         return x
     return None
+
+
+def normalise_loops(effects: list) -> list:
+    """Effects with their loops brought to normal form:
+    * `for x in (A if c else B)` is the loop over A under c and the loop over B under not c;
+    * `for x in (<item>, <item>, ...)` (a tuple / list display) is the body once per item, x := item, with <tuple>[i] of a
+      display folded - so a one-element table `(('value', v),)` and the statements written out are the same thing."""
+    out = []
+    todo = list(effects)
+    guard = 0
+    while todo:
+        guard += 1
+        if guard > 10000:
+            break
+        e = todo.pop(0)
+        hit = None
+        for i, c in enumerate(e.ctx):
+            if c[0] == "for" and isinstance(c[2], tuple) and c[2][0] in ("ite", "tuple", "list"):
+                if c[2][0] == "ite" or len(c[2][1]) <= 8:
+                    hit = (i, c)
+                    break
+        if hit is None:
+            out.append(e)
+            continue
+        i, c = hit
+        el = ("elem", c[2], c[1])
+
+        def subst(t, f):
+            return rebuild(t, f) if isinstance(t, tuple) else t
+
+        def fold(x):
+            if x[0] == "sub" and x[1][0] in ("tuple", "list") and x[2][0] == "const" and isinstance(x[2][1], int) \
+                    and -len(x[1][1]) <= x[2][1] < len(x[1][1]):
+                return x[1][1][x[2][1]]
+            return x
+        if c[2][0] == "ite":
+            for branch, lits in ((c[2][2], literals(c[2][1])), (c[2][3], literals(c[2][1], False))):
+                nel = ("elem", branch, c[1])
+                f = lambda x, nel=nel: nel if x == el else x  # noqa: E731
+                ctx = e.ctx[:i] + (("for", c[1], branch),) + tuple(
+                    (k[0], k[1], subst(k[2], f)) if k[0] in ("for", "while") and isinstance(k[2], tuple) else k
+                    for k in e.ctx[i + 1:])
+                todo.insert(0, Effect(e.kind, subst(e.base, f), subst(e.key, f) if e.kind == "store_sub" else e.key,
+                                      subst(e.value, f), lits + tuple(subst(q, f) for q in e.pc), ctx, e.node, e.func,
+                                      e.aug))
+        else:
+            for item in reversed(c[2][1]):
+                f = lambda x, item=item: fold(item if x == el else x)  # noqa: E731
+                ctx = e.ctx[:i] + tuple(
+                    (k[0], k[1], subst(k[2], f)) if k[0] in ("for", "while") and isinstance(k[2], tuple) else k
+                    for k in e.ctx[i + 1:])
+                todo.insert(0, Effect(e.kind, subst(e.base, f), subst(e.key, f) if e.kind == "store_sub" else e.key,
+                                      subst(e.value, f), tuple(subst(q, f) for q in e.pc), ctx, e.node, e.func, e.aug))
+    return out
